@@ -14,6 +14,7 @@ from checks.c09 import lookups
 from pykdebugparser.traces_parser import TracesParser
 
 M64 = (1 << 64) - 1
+BRACE_PATH = '/{result}/{flags}/{0}/{'      # a path whose text is made of format fields
 EXEMPT = {'BSC_getpid', 'BSC_getuid', 'BSC_geteuid', 'BSC_getppid', 'BSC_getegid', 'BSC_getgid', 'BSC_getpgrp', 'BSC_umask',
           'BSC_sync', 'BSC_sys_getdtablesize', 'BSC_getlogin', 'BSC_execve', 'BSC_vfork', 'BSC_bsdthread_create',
           'BSC_abort_with_payload'}
@@ -46,6 +47,12 @@ def render(name, s, e, nlook, shape=None):
         # the other thread's whole call falls inside ours: A.START B.START B.END A.END
         evs = [E.ev(name, 1, s), E.ev(name, 1, s, tid=2), E.ev(name, 2, (0x9a, 0x9b9b, 0x9c9c, 0x9d9d), tid=2)] + mid + [E.ev(name, 2, e)]
         judged = len(evs) - 1
+    if shape == 'brace-path':
+        from mc import build as B
+        evs = evs[:1] + [E.ev('VFS_LOOKUP', q, data=d) for d, q in B.lookup_chunks(0x70, BRACE_PATH)] * 2 + evs[-1:]
+        judged = len(evs) - 1
+        out = [t for t in p.feed_generator(E.restamp(evs)) if t.ktraces[0].eventid == E.n2i(name) and t.ktraces[-1].timestamp == judged]
+        return E.stable_str(out[0]) if len(out) == 1 else None
     if shape == 'with-related-records':
         # every code of the table whose name starts with this call's name (BSC_mmap_extended_info, ...) nested in the window with words
         # that are nobody's result
@@ -124,7 +131,9 @@ def judge_decoder(name, starts, nlooks, acc, full=True):
             for err in (ERRS if (full or si == 0) and not ood else (0, 2, 9999, M64)):
                 for ret in RETS:
                     for tail in TAILS:
-                      for shape in ((None, 'long', 'crossing', 'enclosing', 'odd-timestamps', 'other-open-inside', 'other-open-before', 'same-thread-crossing', 'start-without-end-after', 'with-related-records', 'nested-then-orphan-end') if (err in (0, 2, 9999) and ret in (0x55, M64) and tail == TAILS[1] and si == 0) else (None,)):
+                      for shape in ((None, 'long', 'crossing', 'enclosing', 'odd-timestamps', 'other-open-inside', 'other-open-before', 'same-thread-crossing', 'start-without-end-after', 'with-related-records', 'nested-then-orphan-end', 'brace-path') if (err in (0, 2, 9999) and ret in (0x55, M64) and tail == TAILS[1] and si == 0) else (None,)):
+                        if shape == 'brace-path' and name == 'BSC_fsgetpath':
+                            continue       # its result part quotes the looked-up path (the documented leniency): nothing to compare with
                         e = (err, ret) + tail
                         case = {'decoder': name, 'start': [hex(x) for x in s], 'end': [hex(x) for x in e], 'lookups': nlook, 'shape': shape}
                         try:
@@ -148,7 +157,12 @@ def judge_decoder(name, starts, nlooks, acc, full=True):
                         fn, toks, rest = sc
                         acc.case(nontrivial=err != 0 or bool(rest), transitions=2, outcome=h64((name, rest)))
                         call = (fn, tuple(toks))
-                        if call0 is None:
+                        if shape == 'brace-path':
+                            # the looked-up path is made of format fields: whatever quoted text the call shows is that path, verbatim
+                            q = QUOTED.findall(txt)
+                            if any(x not in ('""', '"' + BRACE_PATH + '"') for x in q):
+                                bad.append((f'call-part-depends-on-END@{name}', case, {'text': txt, 'note': 'a path made of {fields} was expanded'}))
+                        elif call0 is None:
                             call0 = call
                         elif call != call0:
                             bad.append((f'call-part-depends-on-END@{name}', case, {'text': txt, 'other': repr(call0)}))
